@@ -183,7 +183,10 @@ fn dispatch(ctx: &mut Ctx) {
             scen_core::c04(ctx);
             scen_core::c04_tall(ctx);
         }
-        "C05" => scen_core::c05(ctx),
+        "C05" => {
+            scen_core::c05(ctx);
+            scen_core::c05_tall(ctx);
+        }
         "C06" => {
             scen_core::c06(ctx);
             scen_core::c06_big(ctx);
